@@ -33,7 +33,7 @@ def raw_step(rng, name):
     if name == "diff":
         return ["diff", rng.choice([1, 1, 2, 0])]
     if name == "set":
-        return ["set", R(), rng.choice([1, 1, 2, 3]), rng.choice(["float64"] * 3 + ["float32", "int64", "int32"]),
+        return ["set", R(), rng.choice([1, 1, 2, 3]), rng.choice(["float64"] * 3 + ["float32", "int64", "int32", "uint8", "uint16", "int8"]),
                 rng.choice(["2d", "2d", "1d"]), int(rng.random() < 0.08)]
     if name in ("sub", "subr"):
         dens = rng.choice([0.5, 0.7, 0.9, 0.0])
@@ -246,6 +246,8 @@ def run_history(case):
                 vals = [[sub.choice([0.0, 1.0, 2.0, 3.0, -1.0, 0.5, 1.5, 4.0]) for _ in range(d2)] for _ in range(n)]
                 if dt.startswith("int"):
                     vals = [[float(int(x * 2)) for x in r] for r in vals]
+                if dt.startswith("uint"):
+                    vals = [[float(abs(int(x * 2))) for x in r] for r in vals]
                 arr = np.array(vals, dtype=dt)
                 if shape == "1d" and d2 == 1:
                     arr = arr.reshape(n)
